@@ -78,6 +78,47 @@ def delSlice (bits : Bits) (start stop : Option Nat) : Bits :=
 /-- `bitarray.__delitem__(i)` for `0 ≤ i`; `none` = IndexError. -/
 def delAt? (bits : Bits) (i : Nat) : Option Bits := if i < bits.length then some (bits.eraseIdx i) else none
 
+/-! ### loops with loop-carried locals, aliases of `self` (snake strings); a slice by a possibly negative int is `Py.sliceI` of PyBytes.lean -/
+
+/-- `for x in xs: body` where the body rebinds ONE outer local (`acc`) and may change the state / raise. -/
+def forL {σ ι τ : Type} : List ι → σ → τ → (ι → σ → τ → σ × Option τ) → σ × Option τ
+  | [], self, acc, _ => (self, some acc)
+  | x :: xs, self, acc, f => bindS (f x self acc) fun self acc => forL xs self acc f
+
+/-- `while True: body` with loop-carried locals `acc`: the body either leaves the method (`Sum.inr v` = `return v`; `none` = it
+raised) or ends an iteration with new locals (`Sum.inl acc`).  `fuel` = the DECLARED bound on the number of iterations (a loop
+variant is not visible in the source); exhausted fuel counts as a raise. -/
+def whileS {σ τ β : Type} : Nat → σ → τ → (σ → τ → σ × Option (τ ⊕ β)) → σ × Option β
+  | 0, self, _, _ => (self, none)
+  | fuel + 1, self, acc, body =>
+    match body self acc with
+    | (s, none) => (s, none)
+    | (s, some (.inr b)) => (s, some b)
+    | (s, some (.inl acc')) => whileS fuel s acc' body
+
+/-- a local that is an alias of `self` (`none`: after `x = self`) or an object of its own (`some st`): its current state -/
+@[inline] def curOf {σ : Type} (cur : Option σ) (self : σ) : σ := cur.getD self
+
+/-- a mutating call `f` on such a local: on the alias it changes `self` (a raise ends the method with the callee's state), on an
+own object only that object (a raise ends the method with `self` as it is). -/
+@[inline] def bindA {σ α β : Type} (f : σ → σ × Option α) (cur : Option σ) (self : σ) (k : Option σ → σ → α → σ × Option β) :
+    σ × Option β :=
+  match cur with
+  | none => match f self with
+    | (s, some a) => k none s a
+    | (s, none) => (s, none)
+  | some st => match f st with
+    | (st', some a) => k (some st') self a
+    | (_, none) => (self, none)
+
+/-- `range(a, b, s)` for a positive literal step `s` -/
+def rangeStep (a b s : Nat) : List Nat := (List.range ((b - a + s - 1) / s)).map fun k => a + k * s
+
+/-- a str / list / tuple of ints handed to `bitarray.extend`: every item must be the character `0` / `1` (the int 0 / 1);
+`none` = ValueError.  (bitarray also skips whitespace and `_` in a str: outside the model.) -/
+def bitsOfChars? (cs : List Nat) (c0 c1 : Nat) : Option Bits :=
+  cs.mapM fun c => if c = c0 then some false else if c = c1 then some true else none
+
 /-- the state of a `Slice`: the bits not consumed yet, ALL references of the cell, and how many of them were consumed. -/
 structure SliceSt (R : Type) where
   bits : Bits
